@@ -84,7 +84,7 @@ def cases(rng, tier):
                     'utype': rng.choice(['rotation', 'phase', 'generic', 'swap'])})
     # long lattices with genuinely complex 2x2 unitaries in every run: the blocks of the gauge matrices that are only
     # populated for pairs in the right half of a lattice with L >= 7 are complex-conjugated entries
-    for L, ut, dt in ((7, 'generic', 'complex'), (7, 'phase', 'real'), (8, 'generic', 'real')) if tier != 'search' else ((7, 'generic', 'complex'),):
+    for L, ut, dt in {'quick': ((7, 'generic', 'complex'), (7, 'phase', 'real')), 'thorough': ((7, 'generic', 'complex'), (7, 'phase', 'real'), (8, 'generic', 'real'), (8, 'phase', 'complex')), 'search': ((7, 'generic', 'complex'),)}[tier]:
         out.append({'kind': 'gauge', 'L': L, 'seed': rng.getrandbits(30), 'dtype': dt, 'struct': 'dense', 'utype': ut})
     if tier == 'thorough':
         # largest sizes: exact runs + Coq only (the dense reference of the spin model at L = 5 is out of reach)
